@@ -26,7 +26,7 @@ FACT_T = [1, 2, 3, 4, 5, 7, 8, 16, 33, 64]
 
 def axes(tier, seed):
     return dict(shapes="[2..10]^2" if tier == "quick" else "[2..20]^2 + (33,65),(100,7),(7,100),(64,64),(65,65)",
-                factors=FACT_Q if tier == "quick" else FACT_T, header=["CDELT", "CD"], input=["file", "hdulist"],
+                factors=FACT_Q if tier == "quick" else FACT_T, header=["CDELT", "CD (diagonal)", "CD (rotated 17 deg)"], input=["file", "hdulist"],
                 image=["ramp", "nodelinear", "arbitrary"])
 
 
@@ -73,13 +73,18 @@ def make_image(kind, shape, factor, seed):
 
 
 def _mkhdu(img, shape, cd, seed):
+    """cd: False (CDELT), True (diagonal CD matrix) or "rot" (CD matrix of a rotated image: non-zero CD1_2, CD2_1)"""
     hdr = wz.make_header("SIN", (33.0 + core.seed_shift(seed, 2, 50), -27.0), 15.0 / 3600, shape,
-                         crpix=(shape[1] / 2.0 + 0.5, shape[0] / 3.0 + 1.25), cd_matrix=cd)
+                         crpix=(shape[1] / 2.0 + 0.5, shape[0] / 3.0 + 1.25), cd_matrix=bool(cd))
+    if cd == "rot":
+        c_, s_ = np.cos(np.radians(17.0)), np.sin(np.radians(17.0))
+        d_ = 15.0 / 3600
+        hdr.update(CD1_1=-d_ * c_, CD1_2=d_ * s_, CD2_1=d_ * s_, CD2_2=d_ * c_)
     return fits.HDUList([fits.PrimaryHDU(data=img.copy(), header=wz.to_fits_header(hdr))]), hdr
 
 
 WCSKEYS_CDELT = ["CRPIX1", "CRPIX2", "CDELT1", "CDELT2", "CRVAL1", "CRVAL2"]
-WCSKEYS_CD = ["CRPIX1", "CRPIX2", "CD1_1", "CD2_2", "CRVAL1", "CRVAL2"]
+WCSKEYS_CD = ["CRPIX1", "CRPIX2", "CD1_1", "CD2_2", "CD1_2", "CD2_1", "CRVAL1", "CRVAL2"]
 
 
 def ev_roundtrip(case, ctx):
@@ -88,11 +93,11 @@ def ev_roundtrip(case, ctx):
     d = os.environ["VERIF_SCRATCH"]
     factors = FACT_Q if ctx.tier == "quick" else FACT_T
     for factor in factors:
-        for cd in (False, True):
+        for cd in (False, True, "rot"):
             for inp in ("file", "hdulist"):
                 for kind in ("ramp", "nodelinear", "arbitrary"):
                     ctx.count("roundtrip")
-                    sig = "shape=%dx%d,f=%d,%s,%s,%s" % (rows, cols, factor, "CD" if cd else "CDELT", inp, kind)
+                    sig = "shape=%dx%d,f=%d,%s,%s,%s" % (rows, cols, factor, {False: "CDELT", True: "CD", "rot": "CDrot"}[cd], inp, kind)
                     img = make_image(kind, shape, factor, ctx.seed)
                     hl, hdr = _mkhdu(img, shape, cd, ctx.seed)
                     try:
